@@ -9,11 +9,14 @@ from . import gen
 from .common import hexs
 
 
-def scenario(rng, flav):
+KINDS = ["plain", "reuse", "hole-intact", "exthole", "dir", "dir-reuse", "dir-clash", "dir-twice", "clash", "twice"]
+
+
+def scenario(rng, flav, kind=None):
     """returns (setup lines, operation lines, meta); operation lines do not contain judgement points"""
     bs = 512 if flav & 1 else 488
     X, Y, Z, S, B = hexs(b"Xfile"), hexs(b"Yfile"), hexs(b"Zfile"), hexs(b"Small"), hexs(b"bystander")
-    kind = rng.choice(["plain", "plain", "reuse", "reuse", "hole-intact", "exthole", "exthole", "dir", "dir-reuse", "dir-clash", "dir-twice", "dir-twice", "clash", "twice"])
+    kind = kind or rng.choice(["plain", "plain", "reuse", "reuse", "hole-intact", "exthole", "exthole", "dir", "dir-reuse", "dir-clash", "dir-twice", "dir-twice", "clash", "twice"])
     setup = ["open 0 - %s w" % B, "write 0 3 %d" % (5 * bs), "close 0"]
     ops = []
     size = rng.choice([0, 1, bs, 5 * bs, 72 * bs, 72 * bs + 1, 100 * bs, 150 * bs])
@@ -76,11 +79,11 @@ def scenario(rng, flav):
     return setup, ops + tail, meta
 
 
-def history(ctx):
+def history(ctx, kind=None, flav=None):
     """history for hist.run_history: judgement points after the undelete and after the follow-up calls, with and without remount"""
     rng = ctx.rng
-    flav = rng.choice(gen.FLAVOURS)
-    setup, ops, meta = scenario(rng, flav)
+    flav = rng.choice(gen.FLAVOURS) if flav is None else flav
+    setup, ops, meta = scenario(rng, flav, kind)
     meta["flavour"] = flav
     L = gen.dev_create("DD", flav) + ["mountdev 0", "mount 0 0"] + setup
     k = 0
